@@ -14,11 +14,13 @@ impl RawMutex {
         RawMutex { id: ObjId::new(), locked: Cell::new(false) }
     }
     pub(crate) fn lock(&self) {
+        let _rt = crate::RtGuard::new();
         yield_point("mutex.lock");
         self.lock_no_yield();
     }
     /// acquire without a leading scheduling point (used when re-acquiring after a condvar wait)
     pub(crate) fn lock_no_yield(&self) {
+        let _rt = crate::RtGuard::new();
         loop {
             match enter() {
                 Mode::Outside => {
@@ -43,6 +45,7 @@ impl RawMutex {
         }
     }
     pub(crate) fn unlock_no_yield(&self) {
+        let _rt = crate::RtGuard::new();
         match enter() {
             Mode::Outside | Mode::Ending => self.locked.set(false),
             Mode::Sim(mut c) => {
@@ -54,6 +57,7 @@ impl RawMutex {
         }
     }
     pub(crate) fn unlock(&self) {
+        let _rt = crate::RtGuard::new();
         self.unlock_no_yield();
         yield_point("mutex.unlock");
     }
@@ -68,6 +72,7 @@ impl RawCondvar {
     }
     /// Atomically release `m` and wait; re-acquires `m` before returning. May wake spuriously.
     pub(crate) fn wait(&self, m: &RawMutex) {
+        let _rt = crate::RtGuard::new();
         match enter() {
             Mode::Outside => panic!("detsim condvar wait outside a run"),
             Mode::Ending => {}
@@ -84,6 +89,7 @@ impl RawCondvar {
         m.lock_no_yield();
     }
     pub(crate) fn notify_all(&self) {
+        let _rt = crate::RtGuard::new();
         match enter() {
             Mode::Outside | Mode::Ending => return,
             Mode::Sim(mut c) => {
@@ -95,6 +101,7 @@ impl RawCondvar {
         yield_point("notify_all");
     }
     pub(crate) fn notify_one(&self) {
+        let _rt = crate::RtGuard::new();
         match enter() {
             Mode::Outside | Mode::Ending => return,
             Mode::Sim(mut c) => {
@@ -120,6 +127,7 @@ impl RawRwLock {
         RawRwLock { id: ObjId::new(), readers: Cell::new(0), writer: Cell::new(false), wwait: Cell::new(0) }
     }
     pub(crate) fn read(&self) {
+        let _rt = crate::RtGuard::new();
         yield_point("rw.read");
         loop {
             match enter() {
@@ -149,6 +157,7 @@ impl RawRwLock {
         }
     }
     pub(crate) fn write(&self) {
+        let _rt = crate::RtGuard::new();
         yield_point("rw.write");
         let mut waiting = false;
         loop {
@@ -188,6 +197,7 @@ impl RawRwLock {
         }
     }
     pub(crate) fn unlock(&self, write: bool) {
+        let _rt = crate::RtGuard::new();
         match enter() {
             Mode::Outside | Mode::Ending => {
                 if write {
@@ -237,6 +247,7 @@ impl<T: Default> Default for Mutex<T> {
 }
 impl<T: ?Sized> Mutex<T> {
     pub fn lock(&self) -> MutexGuard<'_, T> {
+        let _rt = crate::RtGuard::new();
         self.raw.lock();
         MutexGuard { m: self }
     }
@@ -246,6 +257,7 @@ impl<T: ?Sized> Mutex<T> {
 }
 impl<T: ?Sized> Drop for MutexGuard<'_, T> {
     fn drop(&mut self) {
+        let _rt = crate::RtGuard::new();
         self.m.raw.unlock();
     }
 }
@@ -274,13 +286,16 @@ impl Condvar {
         Condvar { raw: RawCondvar::new() }
     }
     pub fn wait<T: ?Sized>(&self, guard: &mut MutexGuard<'_, T>) {
+        let _rt = crate::RtGuard::new();
         self.raw.wait(&guard.m.raw);
     }
     pub fn notify_all(&self) -> usize {
+        let _rt = crate::RtGuard::new();
         self.raw.notify_all();
         0
     }
     pub fn notify_one(&self) -> bool {
+        let _rt = crate::RtGuard::new();
         self.raw.notify_one();
         true
     }
@@ -316,21 +331,25 @@ impl<T: ?Sized> RwLock<T> {
         self.data.get_mut()
     }
     pub fn read(&self) -> RwLockReadGuard<'_, T> {
+        let _rt = crate::RtGuard::new();
         self.raw.read();
         RwLockReadGuard { l: self }
     }
     pub fn write(&self) -> RwLockWriteGuard<'_, T> {
+        let _rt = crate::RtGuard::new();
         self.raw.write();
         RwLockWriteGuard { l: self }
     }
 }
 impl<T: ?Sized> Drop for RwLockReadGuard<'_, T> {
     fn drop(&mut self) {
+        let _rt = crate::RtGuard::new();
         self.l.raw.unlock(false);
     }
 }
 impl<T: ?Sized> Drop for RwLockWriteGuard<'_, T> {
     fn drop(&mut self) {
+        let _rt = crate::RtGuard::new();
         self.l.raw.unlock(true);
     }
 }
